@@ -14,7 +14,7 @@ TRUSTED_BASE_MAP = [
 ]
 
 SHAPES2 = ["bb", "bi", "bf", "ib", "ii", "if", "fb", "fi", "ff"]
-TY = {"b": "Bool", "i": "Int", "f": "Float"}
+TY = {"b": "Bool", "i": "Int", "f": "Float", "v": "Void"}
 
 GROUPS = {
     "native_scalar": {
@@ -32,10 +32,10 @@ GROUPS = {
             "greater,less,greater_than_or_equals,less_than_or_equals,and,or,not,min,max,pow,floor,ceiling,int,float}_op",
             "Value::cast", "Value::get_cast_ordinal", "Value::new", "Value::get_value", "Value::get_bool_value",
         ],
-        "bounds": ("one harness per (operator, operand type shape) with shapes over {Bool,Int,Float}; operand values fully "
+        "bounds": ("one harness per (operator, operand type shape) with shapes over {Bool,Int,Float} plus Void operands (must be reported as Err); operand values fully "
                    "symbolic (all 2^32 per i32/f32 operand, both bools); loop unwind 4 (parameter vectors of length <= 2); "
-                   "int '/' and '%' value oracle restricted to |x|,|y| < 2^15 (no-panic and Err-on-zero are full width); "
-                   "POW and float '%' have no value oracle (libm), only type/no-panic"),
+                   "int '/' and '%' value oracle restricted to sign-extended i16 operands (no-panic and Err-on-zero are full width); "
+                   "POW, float '%' and float '/' have no value oracle (libm / two IEEE dividers do not finish), only type/no-panic"),
         "stubs": ["alloc::fmt::format"],
     },
     "newline": {
@@ -62,7 +62,12 @@ GROUPS = {
         "inject": "runtime/src/json/json_read.rs",
         "modpath": "json::json_read",
         "files": ["json_value.rs"],
+        "instance_macros": ["arr", "tokarr"],
         "requires": ["pub fn jtoken_to_runtime_object(", "pub fn jarray_to_runtime_obj_list("],
+        "requires_in": {"runtime/src/json/json_write.rs": [
+            "if let Some(v) = Value::get_bool_value(o.as_ref()) { return Ok(json!(v)); }",
+            "if let Some(v) = Value::get_value::<i32>(o.as_ref()) { return Ok(json!(v)); }",
+            "if let Some(v) = Value::get_value::<f32>(o.as_ref()) { return Ok(json!(v)); }"]},
         "model_map": True,
         "panic_property": "C15",
         "functions": ["json_write::write_rtobject", "json_read::jtoken_to_runtime_object", "json_read::jarray_to_runtime_obj_list",
@@ -78,8 +83,11 @@ GROUPS = {
             "tok_null": "loader on JSON null", "tok_bool": "loader on JSON bool", "tok_i64": "loader on any i64 number",
             "tok_u64": "loader on any u64 number", "tok_f64": "loader on any finite f64 number",
             "tok_str0": "loader on the empty string token", "tok_str1": "loader on any 1-byte ASCII string token",
-            "tok_str2": "loader on any 2-byte ASCII string token", "arr_list_empty": "token-list reader on [] (skip_last symbolic)",
-            "arr_list_one_number": "token-list reader on [n], n any i64", "arr_list_bool_null": "token-list reader on [bool, null]",
+            "tok_str2": "loader on any 2-byte ASCII string token", "tok_arr_empty": "loader on [] as a container",
+            "tok_arr_null": "loader on [null] as a container", "tok_arr_bool_null": "loader on [bool, null] as a container", "arr_list_empty_skip": "token-list reader on [] with skip_last", "arr_list_empty_noskip": "token-list reader on []",
+            "arr_list_one_number_skip": "token-list reader on [n] with skip_last, n any i64", "arr_list_one_number_noskip": "token-list reader on [n], n any i64",
+            "arr_list_bool_null_skip": "token-list reader on [bool, null] with skip_last", "arr_list_bool_null_noskip": "token-list reader on [bool, null]",
+            "arr_list_int_int_noskip": "token-list reader on [i, j], any i32 pair",
         },
     },
     "count_flags": {
@@ -100,18 +108,99 @@ GROUPS = {
         "functions": ["PushPopType::from_value"], "stubs": ["alloc::fmt::format"],
         "bounds": "all usize values", "roles": {"pushpop_roundtrip": "call-stack element type code read back, all usize"},
     },
+    "list_ops": {
+        "pkg": "bladeink",
+        "inject": "runtime/src/ink_list.rs",
+        "modpath": "ink_list",
+        "files": ["list_ops.rs", "list_ops_instances.rs", "list_common.rs"],
+        "instance_macros": ["h"],
+        "requires": ["pub fn get_max_item(", "fn get_ordered_items(", "pub(crate) fn list_with_sub_range("],
+        "model_map": True,
+        "panic_property": "C04",
+        "functions": [
+            "InkList::{get_max_item,get_min_item,max_as_list,min_as_list,get_ordered_items,union,without,intersect,contains,"
+            "get_all,inverse,list_with_sub_range,greater_than,greater_than_or_equals,less_than,less_than_or_equals,eq,"
+            "get_origin_names,from_other_list}", "ListDefinition::{new,get_items,get_item_with_value}",
+            "NativeFunctionCall::{call,call_binary_list_operation,call_list_increment_operation,call_type}", "Value::cast (List)",
+            "Value::retain_list_origins_for_assignment", "InkListItem::{new,from_full_name}",
+        ],
+        "bounds": ("universe LIST A = x, y; LIST B = x, z (item name x declared in both lists) with all four item values symbolic i32; operand lists of concrete "
+                   "membership (sizes 0..4) and concrete insertion order; order independence checked on every non-identity "
+                   "permutation of every 2- and 3-item list; list +/- n with |n| < 4 and |value| < 1000 for the value oracle "
+                   "(full i32 for the no-panic obligation); unwind 8"),
+        "stubs": ["alloc::fmt::format"],
+    },
+    "tokenizer": {
+        "pkg": "bladeink", "inject": "runtime/src/json/json_tokenizer.rs", "modpath": "json::json_tokenizer",
+        "files": ["tokenizer.rs"], "requires": ["fn read_string(", "enum Number"], "model_map": False, "panic_property": "C14",
+        "functions": ["JsonTokenizer::{new_from_str,read_string,read,read_no_lookahead,read_utf8_char,expect}", "Number::{as_integer,as_float,is_integer}"],
+        "bounds": ("string tokens of one escape (all eight two-character escapes; \\uXXXX for every non-surrogate BMP code point, any "
+                   "hex digit case), one unescaped ASCII or two-byte UTF-8 character, an escape followed by one character; numbers: "
+                   "all i32 / all f32 through the Number conversions; longer strings, surrogate pairs and number TEXT parsing are outside"),
+        "stubs": ["alloc::fmt::format"],
+        "roles": {"esc_simple": "read_string on \"\\c\" for c in the eight JSON escapes", "esc_u4_ascii": "\\u0000..\\u007f, any hex case",
+                  "esc_u4_latin": "\\u0080..\\u07ff", "esc_u4_wide": "\\u0800..\\uffff minus surrogates",
+                  "plain_ascii": "one unescaped printable ASCII char", "plain_two_byte_utf8": "one two-byte UTF-8 char",
+                  "esc_then_plain": "\\n followed by one ASCII char", "number_int_conversions": "Number::Int(n) conversions, all i32",
+                  "number_float_conversions": "Number::Float(f) conversions, all f32"},
+    },
+    "stream_leaf": {
+        "pkg": "bladeink", "inject": "runtime/src/json/json_read_stream.rs", "modpath": "json::json_read_stream",
+        "files": ["stream_leaf.rs"], "requires": ["fn jtoken_to_runtime_object(", "enum ArrayElement"], "model_map": True, "panic_property": "C14",
+        "functions": ["json_read_stream::jtoken_to_runtime_object (leaf arms)", "json_read::jtoken_to_runtime_object (leaf arms)",
+                      "ControlCommand::new_from_name", "NativeFunctionCall::new_from_name", "Value::new::<&str>"],
+        "bounds": ("differential: same leaf token through both loaders; every i32, every finite f32, both bools, every ASCII string "
+                   "token of length 1, 2 and 3; objects/arrays (tokenizer-driven in the streaming loader) are outside"),
+        "stubs": ["alloc::fmt::format"],
+        "roles": {"leaf_int": "integer token, all i32", "leaf_float": "float token, all finite f32", "leaf_bool": "bool token",
+                  "leaf_str1": "1-byte ASCII string token", "leaf_str2": "2-byte ASCII string token", "leaf_str3": "3-byte ASCII string token"},
+    },
+    "cli_escape": {
+        "pkg": "rinklecate", "is_bin": True, "inject": "rinklecate/src/player.rs", "modpath": "player",
+        "files": ["cli_escape.rs"], "requires": ["fn escape_json_string("], "model_map": False, "panic_property": "C20",
+        "functions": ["player::escape_json_string"],
+        "bounds": ("input of exactly one character: every Unicode scalar value (four harnesses by UTF-8 length); plus every pair and triple of "
+                   "ASCII characters; longer inputs are outside (the loop body keeps no state between characters, by reading)"),
+        "stubs": ["alloc::fmt::format"],
+        "roles": {"esc_char_ascii": "one char U+0000..U+007F", "esc_char_two_byte": "one char U+0080..U+07FF",
+                  "esc_char_three_byte": "one char U+0800..U+FFFF minus surrogates", "esc_char_four_byte": "one char U+10000..U+10FFFF",
+                  "esc_two_ascii": "every pair of ASCII chars", "esc_three_ascii": "every triple of ASCII chars"},
+    },
+    "native_list": {
+        "pkg": "bladeink",
+        "inject": "runtime/src/native_function_call.rs",
+        "modpath": "native_function_call",
+        "files": ["native_list.rs", "native_list_instances.rs", "list_common.rs"],
+        "instance_macros": ["h"],
+        "requires": ["fn call_type(", "fn call_list_increment_operation(", "fn call_binary_list_operation("],
+        "model_map": True,
+        "panic_property": "C04",
+        "functions": [
+            "NativeFunctionCall::{call,call_type,call_binary_list_operation,call_list_increment_operation}",
+            "NativeFunctionCall::{add,subtract,intersect,has,hasnt,equal,not_equals,greater,less,greater_than_or_equals,"
+            "less_than_or_equals,and,or,not,count,value_of_list,list_min,list_max,all,inverse}_op (List arms)",
+            "InkList set algebra (as reached from the operators)", "ListDefinition::get_item_with_value",
+        ],
+        "bounds": ("same universe as list_ops (LIST A = x, y; LIST B = x, z; four symbolic i32 values); operands of concrete membership; "
+                   "typed dispatch through call_type for every list operator; list +/- n through call_list_increment_operation with "
+                   "|n| < 4, |value| < 1000 for the value oracle and full i32 for no-panic; the full entry `call` for void operands, "
+                   "list-with-scalar mixes and one instance per dispatch route; unwind 8"),
+        "stubs": ["alloc::fmt::format"],
+    },
 }
 
 
 def describe(gname, h):
     if gname == "native_scalar":
-        m = re.match(r"ns_(.+)_([bif]{1,2})$", h)
+        m = re.match(r"ns_(.+)_([bifv]{1,2})$", h)
         if m:
             return f"NativeFunctionCall::call op={m.group(1)} operands=({', '.join(TY[c] for c in m.group(2))}) values symbolic"
         m = re.match(r"nsv_(.+)_(\w+)$", h)
         if m:
             return (f"NativeFunctionCall::call op={m.group(1)} value oracle on narrow operands ({m.group(2)}: ints = sign-extended "
                     "i16, floats = k/4 with |k| < 2^11), values symbolic within that range")
+    if gname in ("list_ops", "native_list"):
+        return "list kernel " + h + " over LIST A=x,y / LIST B=x,z, items a=A.x b=A.y c=B.x d=B.z (item values symbolic; name encodes operator, operand membership, insertion order)"
     d = GROUPS[gname].get("roles", {})
     return d.get(h, h)
 
@@ -131,7 +220,8 @@ def sel_c04_scalar(tier, seed, names):
         return names
     # quick: every operator on the all-Int shape (where overflow / division faults live),
     # the float->int conversions, plus a seeded rotation over the remaining shapes
-    core = [n for n in names if re.search(r"_(ii|i)$", n)] + [n for n in names if re.match(r"ns_(int|floor|ceiling)_f$", n)]
+    core = [n for n in names if re.search(r"_(ii|i)$", n)] + [n for n in names if re.match(r"ns_(int|floor|ceiling)_f$", n)] \
+        + [n for n in names if re.search(r"_(vi|iv|v)$", n)][:6]
     rest = [n for n in names if n not in core]
     return core + rot(rest, seed, 10)
 
@@ -160,7 +250,22 @@ def sel_prefix(*prefixes):
     return f
 
 
+def sel_list(prefix, quick_n):
+    def f(tier, seed, names):
+        mine = [n for n in names if n.startswith(prefix)]
+        if tier == "thorough":
+            return mine
+        return rot(mine, seed, quick_n)
+    return f
+
+
 PROPS = {
+    "C03": {
+        "groups": {"list_ops": sel_list("c03_", 14), "native_list": sel_list("c03_", 2)},
+        "outside": ("RANDOM, shuffles, LIST_RANDOM (inside Story, RNG not encodable), order of globals/visit counts in saves, "
+                    "compiler output byte-identity, cross-process/cross-profile equality of whole transcripts"),
+        "assumptions": ["HashMap contract = map with unspecified iteration order; every order is reachable (std randomises per instance)"],
+    },
     "C01": {
         "groups": {"newline": sel_newline},
         "outside": ("everything else in C01: the interpreter loop, choices, visit counting, whitespace cleaning, the compiler; "
@@ -173,6 +278,18 @@ PROPS = {
                     "Story construction not encodable); the text serialisation of serde_json::Value (to_string / from_str) is trusted"),
         "assumptions": ["serde_json::Value::to_string followed by from_str is the identity on numbers and bools (library contract)"],
     },
+    "C14": {
+        "groups": {"tokenizer": sel_all, "stream_leaf": sel_all},
+        "outside": ("object/array structure and key order in the streaming loader, whitespace layout, number text parsing, whole "
+                    "documents, surrogate pairs, strings longer than the stated bounds"),
+        "assumptions": ["RFC 8259 escape semantics is what serde_json implements (library contract)"],
+    },
+    "C20": {
+        "groups": {"cli_escape": sel_all},
+        "outside": ("hand-assembled issue/cmdOutput lines, parse_input, agreement of the play loop with the library, compile mode, "
+                    "exit codes (process-level behaviour, no encodable kernel)"),
+        "assumptions": ["RFC 8259 section 7 defines a valid JSON string body"],
+    },
     "C15": {
         "groups": {"json_value": sel_prefix("tok_", "arr_"), "pushpop": sel_all},
         "outside": ("every object-shaped token (obj.get(k)...unwrap() sites): serde_json::Map is a BTreeMap CBMC does not get "
@@ -180,17 +297,17 @@ PROPS = {
         "assumptions": ["tokens are built directly as serde_json::Value (what serde_json::from_str hands the loader)"],
     },
     "C04": {
-        "groups": {"native_scalar": sel_c04_scalar},
+        "groups": {"native_scalar": sel_c04_scalar, "list_ops": sel_list("c04_", 2), "native_list": sel_list("c04_", 12)},
         "outside": ("RANDOM/shuffle seed arithmetic, evaluation-stack and divert-target unwraps, assignment of non-values, "
                     "reset-after-error: all inside Story methods that Kani cannot encode (DESIGN E5-E7)"),
         "assumptions": ["operands reach NativeFunctionCall::call as Rc<Value> of the stated types (what the evaluation stack holds)"],
     },
     "C07": {
-        "groups": {"native_scalar": sel_c07_scalar},
+        "groups": {"native_scalar": sel_c07_scalar, "list_ops": sel_list("c07_", 16), "native_list": sel_list("c07_", 14)},
         "outside": ("string concatenation/containment and printing of values (text building), POW and float % values (libm), "
                     "list commands executed inside Story (LIST_RANGE, list-from-int, LIST_RANDOM), expression parsing/emission"),
         "assumptions": ["reference evaluator in /verif/harness/native_scalar.rs states Ink's coercion and operator rules"],
     },
 }
 
-WARM_GROUPS = {"plain": "native_scalar", "cli": None}
+WARM_GROUPS = {"plain": "native_scalar", "cli": "cli_escape"}
